@@ -202,9 +202,20 @@ def rule_header(rep: Report, rid="C05.header") -> None:
         for m2, _ in nf.iter_nodes(m.tree):
             if m2[0] == "setattr" and m2[1] == n[1] and m2[2] == "location":
                 loc = m2[3]
-        if isinstance(o, HInst) and o.cls.name == "NoSuchLanguageException" and loc == ("attr", m.tok, "location"):
+        # the message names the dialect asked for: '...Language not supported: ' + <captured name>
+        msg = None
+        for m2, _ in nf.iter_nodes(m.tree):
+            if m2[0] == "mcall" and m2[1] == "__init__" and m2[2][0] == "super" and m2[3]:
+                msg = m2[3][0]
+        names_it = False
+        if msg is not None:
+            parts = nf.str_nf(I, msg, m.tree)
+            seq = list(parts[1]) if parts[0] == "cat" else [parts]
+            names_it = bool(seq) and seq[-1][0] == "call" and seq[-1][1] == ".group" and len(seq) >= 2 and is_const(seq[-2]) \
+                and str(seq[-2][1]).endswith("Language not supported: ")
+        if isinstance(o, HInst) and o.cls.name == "NoSuchLanguageException" and loc == ("attr", m.tok, "location") and names_it:
             good += 1
-    rep.ob(rid, "an unknown dialect is reported as NoSuchLanguageException at the header token's location", good == 1 and len(raises) == 1, **mr._kw(m),
+    rep.ob(rid, "an unknown dialect is reported as NoSuchLanguageException naming it, at the header token's location", good == 1 and len(raises) == 1, **mr._kw(m),
            expected="raise NoSuchLanguageException(name, token.location)", found=f"{len(raises)} raise(s), {good} as specified")
     # grammar position: #Language only at the very top
     pt = ptable()
